@@ -48,7 +48,7 @@ def _prim(fn, *a):
 
 def check_year(acc, y, mods):
     pendulum, py, rs = mods
-    exp_leap = calendar.isleap(y)
+    exp_leap = calref.is_leap(y)
     exp_long = dt_.date(y, 12, 28).isocalendar()[1] == 53
     exp_days = (dt_.date(y, 12, 31) - dt_.date(y, 1, 1)).days + 1
     case = {"kind": "year", "y": y}
@@ -96,20 +96,26 @@ def _read_getters(o):
     return out
 
 
+def _week_of_month(y, m, d):
+    """Row (1-based) of day d in the Monday-first grid of the month - own integer arithmetic (the stdlib `calendar` module keeps
+    its month lengths in a mutable module-level list, so it is not used as an oracle)."""
+    first_wd = calref.iso_weekday(y, m, 1) - 1          # 0 = Monday
+    return (d - 1 + first_wd) // 7 + 1
+
+
 def check_getters(acc, y, m, d, mods, with_datetime=False):
     pendulum, py, rs = mods
     nd = dt_.date(y, m, d)
     iso = nd.isocalendar()
-    mc = calendar.Calendar(0).monthdayscalendar(y, m)
-    wom = next(i for i, row in enumerate(mc) if d in row) + 1
+    wom = _week_of_month(y, m, d)
     exp = {
         "day_of_week": nd.weekday(),
         "day_of_year": nd.timetuple().tm_yday,
         "week_of_year": iso[1],
         "week_of_month": wom,
-        "days_in_month": calendar.monthrange(y, m)[1],
+        "days_in_month": calref.days_in_month(y, m),
         "quarter": (m + 2) // 3,
-        "is_leap_year": calendar.isleap(y),
+        "is_leap_year": calref.is_leap(y),
         "is_long_year": dt_.date(y, 12, 28).isocalendar()[1] == 53,
     }
     objs = [("Date", pendulum.Date(y, m, d))]
@@ -132,10 +138,9 @@ AWARE_ZONES = ("Asia/Tokyo", "Pacific/Auckland", "America/Los_Angeles", "Asia/Ko
 def check_getters_obj(acc, o, case):
     y, m, d = o.year, o.month, o.day
     nd = dt_.date(y, m, d)
-    mc = calendar.Calendar(0).monthdayscalendar(y, m)
     exp = {"day_of_week": nd.weekday(), "day_of_year": nd.timetuple().tm_yday, "week_of_year": nd.isocalendar()[1],
-           "week_of_month": next(i for i, row in enumerate(mc) if d in row) + 1,
-           "days_in_month": calendar.monthrange(y, m)[1], "quarter": (m + 2) // 3, "is_leap_year": calendar.isleap(y),
+           "week_of_month": _week_of_month(y, m, d),
+           "days_in_month": calref.days_in_month(y, m), "quarter": (m + 2) // 3, "is_leap_year": calref.is_leap(y),
            "is_long_year": dt_.date(y, 12, 28).isocalendar()[1] == 53}
     got = _read_getters(o)
     acc.c["evaluations"] += 8
@@ -200,7 +205,7 @@ def run_shard(shard):
             n0 = calref.days_from_civil(y, 1, 1)
             wd = dt_.date(y, 1, 1).isoweekday()
             for m in range(1, 13):
-                dim = calendar.monthrange(y, m)[1]
+                dim = calref.days_in_month(y, m)
                 for d in range(1, dim + 1):
                     check_date_fn(acc, y, m, d, mods, exp_wd=wd)
                     acc.c["states"] += 1
